@@ -16,6 +16,13 @@ CHECKS = {
         technique='CBMC function contracts + loop contract on extracted real code (dfcc), SAT back end',
         design='4.6'),
 }
+CHECKS['C06'] = dict(
+    text='Deductive proof (CBMC contracts, bit-precise IEEE doubles) on the extracted text of EngineControl::computeTimeLimit, ponderHit, the single-legal-move block of startThread (fragment) and Search::timeLimit: '
+         'for every clock 1..10^7, increment 0..10^5, movestogo 0..100, movetime 1..10^5, side to move, Ponder on/off and every declared value of BufferTime/TimeMaxRemainingMoves/MaxTimeUsage/TimePonderHitRate: '
+         'no signed overflow, no NaN/inf, float->int conversions in range, movetime => soft==hard==movetime, clock => 1 <= soft <= hard <= clock - min(buffer, 0.9 clock); the single-move clamp and ponderhit keep 1 <= soft <= hard <= previous hard and deliver exactly those limits to the search.',
+    note=TRUST + 'quick tier proves the ponder-on case at the default tunable values, thorough with all tunables symbolic (about 3 min). Not decided: wall-clock delivery (polling interval, stop path, threads, MaxNPS) - needs execution.',
+    technique='CBMC function contracts on extracted real code (dfcc), floating point encoded bit-precisely, SAT back end',
+    design='4.4')
 NOT_APPLICABLE = {
     'C01': 'planned (DESIGN 4.1) but not built yet in this round; no claim until its first layer is green',
     'C02': 'planned (DESIGN 4.2) but not built yet',
